@@ -8,6 +8,7 @@ import (
 	"os/exec"
 	"path/filepath"
 	"regexp"
+	"runtime"
 	"strings"
 	"sync"
 	"time"
@@ -38,7 +39,26 @@ type solveResult struct {
 	ms     int64
 }
 
+// procSem bounds the number of solver processes that run at the same time to the
+// number of cores, so that a query's wall time stays close to its CPU time (the
+// per-query timeout is a statement about the query, not about machine load).
+var procSem = make(chan struct{}, maxSolverProcs())
+
+func maxSolverProcs() int {
+	n := runtime.NumCPU() - 1
+	if n < 3 {
+		n = 3
+	}
+	return n
+}
+
 func runSolver(ctx context.Context, sp solverSpec, file string, timeoutMs int, seed int) solveResult {
+	select {
+	case procSem <- struct{}{}:
+		defer func() { <-procSem }()
+	case <-ctx.Done():
+		return solveResult{status: "unknown", solver: sp.name, out: "cancelled before start"}
+	}
 	start := time.Now()
 	args := append(sp.args(timeoutMs, seed), file)
 	cctx, cancel := context.WithTimeout(ctx, time.Duration(timeoutMs+2000)*time.Millisecond)
@@ -154,7 +174,7 @@ func Discharge(results []*FuncResult, timeoutMs int, seed int, all bool, keepQue
 	}
 	var mu sync.Mutex
 	var wg sync.WaitGroup
-	sem := make(chan struct{}, 6)
+	sem := make(chan struct{}, 8)
 	seenQ := map[string]*Obligation{}
 	dups := map[*Obligation][]*Obligation{}
 	for _, j := range jobs {
